@@ -1,5 +1,5 @@
 (* C14_check.v — case types, model runners and executable property checks for the C14 correspondence. *)
-Require Export Verif.Model.Base Verif.Model.Consensus Verif.Model.CommitConsensus Verif.Model.Prices.
+Require Export Verif.Model.Base Verif.Model.Consensus Verif.Model.CommitConsensus Verif.Model.Prices Verif.Model.PricesHist.
 Require Import Verif.Check.C01_check.
 
 (* ================= mathslib.Deviates, called in both argument orders ================= *)
@@ -194,7 +194,8 @@ Definition tp_judge := judge tp_model cf_oeqb tp_ok (fun _ => 0%N).
 Definition pplug_obs := (cf_raw * tp_raw * list (N * Z))%type.
 Definition pplug_in :=
   (Z * list (N * (Z * Z)) * Z * list (N * Z) * N * Z * N * roles_t * list N * list (N * pplug_obs))%type.
-Definition prices := list (N * Z).
+(* prices = list (N * Z): Model/PricesHist.v *)
+Definition prices_eqb : prices -> prices -> bool := list_eqb (pair_eqb N.eqb Z.eqb).
 Definition pplug_out := (list bool * res (prices * prices * (prices * prices)))%type.
 
 Definition empty_mobs : obs := mkObs [] [] [] (mkRmn 0 true true [] 0 0 true) [].
@@ -207,7 +208,7 @@ Definition pplug_validate (roles : roles_t) (known : list N) (feedchain dest : N
   cf_validate roles known dest (o, cf).
 
 (* Plugin.Outcome logs and drops a price processor's error: the outcome then carries no prices of that kind *)
-Definition or_nil (r : res prices) : prices := match r with Ok l => l | _ => [] end.
+Definition or_nil (r : res prices) : prices := carried r.
 
 Definition pplug_model (i : pplug_in) : pplug_out :=
   let '(gfreq, feeinfo, tfreq, tokeninfo, feedchain, F, dest, roles, known, aos) := i in
@@ -217,7 +218,6 @@ Definition pplug_model (i : pplug_in) : pplug_out :=
   let tok := or_nil (tp_outcome tfreq tokeninfo feedchain F dest (map (fun ao => (fst ao, tp_clean (snd (fst (snd ao))))) acc)) in
   (vs, Ok (gas, tok, (gas, tok))).
 
-Definition prices_eqb : prices -> prices -> bool := list_eqb (pair_eqb N.eqb Z.eqb).
 Definition pplug_oeqb (a b : pplug_out) : bool :=
   list_eqb Bool.eqb (fst a) (fst b) &&
   res_eqb (pair_eqb (pair_eqb prices_eqb prices_eqb) (pair_eqb prices_eqb prices_eqb)) (snd a) (snd b).
@@ -241,3 +241,53 @@ Definition pplug_judge := judge pplug_model pplug_oeqb pplug_ok (fun _ => 0%N).
 
 (* typed constructor for the harness output (a case file in which some list is empty in EVERY case must still type-check) *)
 Definition pp_out (gas tok rgas rtok : prices) : res (prices * prices * (prices * prices)) := Ok (gas, tok, (rgas, rtok)).
+
+(* ================= history parts: ONE long-lived processor / plugin, one case per round =================
+   input : (the previous outcome's prices handed to this round, this round's input in the shape of the one-shot part)
+   output: (verdicts, Outcome result, prices of the Outcome VALUE returned — also on the error exit; it is what
+            commit.Plugin.Outcome stores and what the harness hands to the next round)
+   The model is the step function of Model/PricesHist.v (Props: the C14_history theorems): it is evaluated on THIS round's role map and
+   observations only, so state left over in the instance or taken from the previous outcome is a mismatch, and the
+   executable property restates "every price is the median of >= 2f+1 observations of this round, selected by this round's
+   deviation / heartbeat rule; no consensus, no price" on the implementation's output. *)
+Definition hist_out := round_out.
+Definition hist_oeqb (a b : hist_out) : bool :=
+  list_eqb Bool.eqb (fst (fst a)) (fst (fst b)) && out_eqb (snd (fst a)) (snd (fst b)) && prices_eqb (snd a) (snd b).
+
+Definition cfh_in := (prices * cf_in)%type.
+Definition cfh_model (i : cfh_in) : hist_out :=
+  let '(prev, (freq, feeinfo, F, dest, roles, known, aos)) := i in
+  cf_step (mkCfCfg freq feeinfo F dest) prev (mkCfRound roles known aos).
+Definition cfh_ok (i : cfh_in) (o : hist_out) : bool :=
+  let '(prev, (freq, feeinfo, F, dest, roles, known, aos)) := i in
+  let '(vs, r, car) := o in
+  let acc := map (fun ao => (fst ao, cf_clean (snd ao))) (select vs aos) in
+  cf_ok (snd i) (vs, r) &&
+  (* an observation is accepted iff THIS round's role map allows it *)
+  list_eqb Bool.eqb vs (map (cf_validate roles known dest) aos) &&
+  prices_eqb car (or_nil (cf_spec freq feeinfo F dest acc)) &&
+  strictly_asc (map fst car).
+Definition cfh_judge := judge cfh_model hist_oeqb cfh_ok (fun _ => 0%N).
+
+Definition tph_in := (prices * tp_in)%type.
+Definition tph_model (i : tph_in) : hist_out :=
+  let '(prev, (freq, tokeninfo, feedchain, F, dest, roles, known, aos)) := i in
+  tp_step (mkTpCfg freq tokeninfo feedchain F dest) prev (mkTpRound roles known aos).
+Definition tph_ok (i : tph_in) (o : hist_out) : bool :=
+  let '(prev, (freq, tokeninfo, feedchain, F, dest, roles, known, aos)) := i in
+  let '(vs, r, car) := o in
+  let acc := map (fun ao => (fst ao, tp_clean (snd ao))) (select vs aos) in
+  tp_ok (snd i) (vs, r) &&
+  list_eqb Bool.eqb vs (map (tp_validate roles known feedchain dest) aos) &&
+  prices_eqb car (or_nil (tp_spec freq tokeninfo feedchain F dest acc)) &&
+  strictly_asc (map fst car).
+Definition tph_judge := judge tph_model hist_oeqb tph_ok (fun _ => 0%N).
+
+(* plugin: previous plugin outcome's (gas prices, token prices), then the round as in part pplug *)
+Definition pplugh_in := (prices * prices * pplug_in)%type.
+Definition pplugh_model (i : pplugh_in) : pplug_out := pplug_model (snd i).
+Definition pplugh_ok (i : pplugh_in) (o : pplug_out) : bool := pplug_ok (snd i) o.
+Definition pplugh_judge := judge pplugh_model pplug_oeqb pplugh_ok (fun _ => 0%N).
+(* typed constructors for the harness *)
+Definition hist_o (vs : list bool) (r : res prices) (car : prices) : hist_out := (vs, r, car).
+Definition no_prices : prices := [].
